@@ -29,7 +29,10 @@ def run(ctx):
     ctx.step(check_guarded_fields, ctx, "C17.guard", CLS)
     fns = [f for f in ctx.fb.functions() if f.file.endswith("/SearchableObjectHolder.hpp")]
     ctx.step(c13.uaf, ctx, "C17.iter", fns, floor=10)
+    ctx.step(common.find_results_checked, ctx, "C17.lookup", fns, floor=6)
+    ctx.step(common.no_repeated_moves, ctx, "C17.moves", fns, floor=1)
     ctx.step(value, ctx)
+    ctx.step(source, ctx)
     ctx.step(pair, ctx)
     ctx.step(common.raii_only, ctx, "C17.raii", ["SearchableObjectHolder.hpp"], floor=10)
     if ctx.tier == "thorough":
@@ -49,6 +52,37 @@ def value(ctx):
                      rt.startswith("std::vector<std::shared_ptr<"))
         ctx.ob(rid, ok, f.where, "%s returns by value (bool / shared_ptr / vector of shared_ptr)" % f.name,
                "" if ok else "returns " + rt, fn=f.label, inst=f.qname)
+
+
+def source(ctx):
+    """find* return what the map holds NOW: the returned shared_ptr is read out of objectMap in this very call (or is
+    null), never out of another member that remembers an earlier answer"""
+    rid = "C17.source"
+    ctx.rule(rid, "a shared_ptr returned by a lookup is copied from an objectMap element in the same critical section", floor=3)
+    for f in ctx.fb.functions(rec=CLS):
+        if f.access != "public" or not f.ret.startswith("std::shared_ptr<"):
+            continue
+        for r in [s_ for s_ in f.stmts.values() if s_["k"] == "ReturnStmt"]:
+            ch = f.children(r)
+            if not ch:
+                continue
+            work, seen, bad = [ch[0]], set(), None
+            while work:
+                e = work.pop()
+                for d in f.descendants(e):
+                    if d["k"] == "MemberExpr" and d["m"].get("is_field") and d["m"].get("rec") == CLS and \
+                            d["m"]["name"] != "objectMap" and path(f, f.s(d["base"])) == "this":
+                        bad = d
+                    if d["k"] == "DeclRefExpr" and d["d"].get("k") == "local" and d["d"]["id"] not in seen:
+                        seen.add(d["d"]["id"])
+                        for s_ in f.stmts.values():
+                            if s_["k"] == "DeclStmt":
+                                for dd in s_["decls"]:
+                                    if dd["id"] == d["d"]["id"] and dd.get("init") and dd["type"].startswith("std::shared_ptr<"):
+                                        work.append(f.s(dd["init"]))
+            ctx.ob(rid, bad is None, f.loc(r), "%s returns an object taken from objectMap (or null)" % f.name,
+                   "" if bad is None else "the returned pointer comes from member '%s': an answer remembered outside the map "
+                   "survives the entry's removal / replacement" % bad["m"]["name"], fn=f.label, inst=f.qname)
 
 
 def _map_calls(f, mapname):
